@@ -376,6 +376,10 @@ pub fn main(args: &Args) -> i32 {
         let faults = c["faults"].as_array().cloned().unwrap_or_default();
         match corrupted(base, &faults) {
             Ok(bytes) => {
+                if let Some(d) = args.get("dump-dir") {
+                    let _ = std::fs::create_dir_all(d);
+                    let _ = std::fs::write(format!("{}/{:06}.msi", d, idx), &bytes);
+                }
                 let r = battery(bytes);
                 record(json!({"base": c["base"], "faults": c["faults"]}), r, &mut viols, &mut by_site, &mut opens);
             }
